@@ -32,7 +32,8 @@ vars == <<hist, opts>>
 Histories(n) == UNION {[1..k -> Descs] : k \in 0..n}
 Opts == {[fields |-> <<>>, excl |-> <<>>], [fields |-> <<"s", "n">>, excl |-> <<>>], [fields |-> <<>>, excl |-> <<"_generated", "s">>], [fields |-> <<"other", "n", "bogus">>, excl |-> <<"s">>],
          [fields |-> <<"s", "n", "other">>, excl |-> <<"s", "bogus">>],            \* a requested field that is also excluded
-         [fields |-> <<"other">>, excl |-> <<>>]}                                  \* a selection that leaves some record types without any field
+         [fields |-> <<"other">>, excl |-> <<>>],
+         [fields |-> <<"s", "n">>, excl |-> <<"n", "s", "other">>]}            \* every requested field is also excluded                                  \* a selection that leaves some record types without any field
 Init == \E ds \in Histories(MaxLen) : hist = [i \in DOMAIN ds |-> [d |-> ds[i], id |-> i]] /\ opts \in Opts
 Next == UNCHANGED vars
 Spec == Init /\ [][Next]_vars
